@@ -7,12 +7,24 @@
 // Everything a later parse call could read from the parser/lexer globals.
 void utapv_globals(std::string& out)
 {
+    // lib/build.py defines UTAPV_HAS_<name> for every file-static it finds declared in the generated parser, so that a
+    // change of the tree under test that renames or removes one of them does not break the harness build
     out.clear();
+#ifdef UTAPV_HAS_ch
     out += "ch=" + std::string(ch == nullptr ? "0" : "1");
+#endif
+#ifdef UTAPV_HAS_syntax
     out += " syntax=" + std::to_string(static_cast<unsigned>(syntax));
+#endif
+#ifdef UTAPV_HAS_syntax_token
     out += " syntax_token=" + std::to_string(syntax_token);
+#endif
+#ifdef UTAPV_HAS_types
     out += " types=" + std::to_string(types);
+#endif
+#ifdef UTAPV_HAS_rootTransId
     out += " rootTransId=" + std::string(rootTransId, strnlen(rootTransId, sizeof(rootTransId)));
+#endif
     out += " yy_start=" + std::to_string(yy_start);
     out += " yy_init=" + std::to_string(yy_init);
     out += " buf_top=" + std::to_string(yy_buffer_stack_top);
